@@ -486,7 +486,31 @@ def rule_pericentre_time(ctx):
     ctx.covered('R11.8', 'pericentre time: the reporting formula inverts the accepting formula for bound and unbound orbits', n, floor=2, samples=samples)
 
 
+def rule_angle_range(ctx):
+    """R11.9: reb_mod2pi reduces every finite angle into [0, 2 pi): interval evaluation of its body over the reals (fmod keeps
+    the sign of its first argument, so one fmod alone maps negative angles into (-2 pi, 0]). Its callers rely on it: the
+    Kepler solvers start Newton's iteration from the reduced mean anomaly, and l, theta, pomega, M are reported reduced."""
+    import math
+    from . import intervals as I
+    tu = cfront.load_tu('tools.c')
+    fn = tu.func('reb_mod2pi')
+    ps = cfront.params(fn)
+    anchor(len(ps) == 1, 'reb_mod2pi(double)')
+    rng = I.function_range(fn, {ps[0]['name']: I.TOP})
+    want = I.Iv(0.0, 2 * math.pi, False, True)
+    if not rng.within(want):
+        ctx.report('R11.9', 'reb_mod2pi:range', 'src/tools.c:%s reb_mod2pi' % cfront.line_of(fn),
+                   'over all finite arguments the returned value ranges over %s, not within [0, 2 pi): fmod keeps the sign of its first argument, so angles below -2 pi (sums of three reduced angles, negative mean anomalies) come back negative' % rng)
+    callers = 0
+    for f_ in tu.funcs:
+        fb = cfront.body(tu.func(f_))
+        if fb is not None:
+            callers += sum(1 for e in walk(fb) if e.get('kind') == 'CallExpr' and callee_name(e) == 'reb_mod2pi')
+    ctx.covered('R11.9', 'range of reb_mod2pi by interval evaluation (%s); %d call sites in tools.c rely on it' % (rng, callers), 1 + callers, floor=5)
+
+
 def run(ctx):
+    rule_angle_range(ctx)
     rule_pericentre_time(ctx)
     rule_components(ctx)
     errs = rule_argument_classes(ctx)
@@ -494,4 +518,4 @@ def run(ctx):
     rule_defaults(ctx)
     rule_shared_formulas(ctx)
     rule_idioms(ctx)
-    ctx.not_decided.append('the numeric round trip elements -> particle -> elements; ranges of the returned angles (none are documented); threshold branches near circular/planar orbits; quadrant selection in acos2')
+    ctx.not_decided.append('the numeric round trip elements -> particle -> elements; ranges of the returned angles other than the reduction performed by reb_mod2pi; threshold branches near circular/planar orbits; quadrant selection in acos2')
